@@ -18,7 +18,7 @@ Ev(t) == Log[t].ev
 RegInit == TLCSet(2, <<>>) /\ TLCSet(3, {})
 
 Fail(t, l, id) ==
-    /\ IF Len(TLCGet(2)) < 400 THEN TLCSet(2, Append(TLCGet(2), <<t, l, id>>)) ELSE TRUE
+    /\ IF Len(TLCGet(2)) < 1500 THEN TLCSet(2, Append(TLCGet(2), <<t, l, id>>)) ELSE TRUE
     /\ FALSE
 
 \* must be IF (not \/): inside a next-state relation TLC explores both disjuncts
@@ -29,9 +29,11 @@ Accept(t) == TLCSet(3, TLCGet(3) \cup {t})
 \* use as CONSTRAINT: records acceptance when every event of trace t was consumed
 Accepting(t, l) == (l = Len(Ev(t)) + 1) => Accept(t)
 
-Post == /\ PrintT(<<"ACC", ToJson(TLCGet(3))>>)
-        /\ PrintT(<<"REJ", ToJson(TLCGet(2))>>)
-        /\ PrintT(<<"NTR", ToJson(NTraces)>>)
+\* one string per line: TLC's pretty printer wraps long tuples but never a string
+Out(tag, v) == PrintT(tag \o " " \o ToJson(v))
+Post == /\ Out("ACC", TLCGet(3))
+        /\ Out("REJ", TLCGet(2))
+        /\ Out("NTR", NTraces)
 
 \* helpers for JSON values
 ToSetOf(seq) == {seq[i] : i \in 1..Len(seq)}
